@@ -82,7 +82,13 @@ def run(ctx):
     for w_ in "add sub mul div mod eq ne lt le gt ge in and or".split():
         OP_WORD_TEXTS += [f"{w_}/id eq 1", f"{w_}/any()", f"items/any({w_}: {w_}/price gt 10)", f"ns.f({w_}=1)", f"x/{w_} eq 1", f"x/{w_}/y eq 1", f"ns.{w_}/a eq 1", f"f.{w_}(1)",
                           f"({w_}) eq 1", f"x eq ({w_})", f"{w_}/all({w_}: {w_} eq {w_})"]
-    for f in gens.VALID_FILTERS + gens.QUOTED_LITERAL_FILTERS + NS_PATH_TEXTS + OP_WORD_TEXTS:
+    # every duration SHAPE the lexer accepts: sign / each component present or absent / the T designator with nothing after it / leading zeros / fractions / letter case
+    DUR_TEXTS = []
+    for sg in ("", "+", "-"):
+        for body in ("P", "PT", "P1D", "P1DT", "P1Y2M3DT", "PT1H", "PT0S", "PT0.50S", "P01D", "P001Y002M", "P1Y2M3DT4H5M6.5S", "PT1M", "P1M", "P1MT1M", "PT000.000001S", "P10675199DT2H48M5.4775807S"):
+            DUR_TEXTS += [f"x eq duration'{sg}{body}'", f"x in (duration'{sg}{body}', duration'P1D')", f"dt1 add duration'{sg}{body}' gt dt2"]
+    DUR_TEXTS += ["x eq duration'p1dt2h'", "x eq DURATION'pt'", "x eq Duration'-p1y2m3dt'"]
+    for f in gens.VALID_FILTERS + gens.QUOTED_LITERAL_FILTERS + NS_PATH_TEXTS + OP_WORD_TEXTS + DUR_TEXTS:
         try:
             nodes.append(impl.real_parse_ast(f))
         except Exception:  # noqa
